@@ -3,7 +3,7 @@ C12: the directory of a single-process run meets the input conditions of C08's m
 rendered bucket keys), so the collector model returns, family by family, exactly the spec's values.
 -/
 import PromVerif.Lemmas.BackendsValue
-import PromVerif.Props.C08
+import PromVerif.Lemmas.MultiprocessOutput
 
 namespace PromVerif.Lemmas.Backends
 open PromVerif.Py PromVerif.Generated.Multiprocess
@@ -126,7 +126,7 @@ theorem wfinput (bo : BOps B) (ds : List (MDecl V)) (bsOf : MDecl V → List B) 
     by_cases hij : i = j
     · subst hij; rw [hi] at hj; exact Option.some.inj hj
     · exact absurd e (names_ne hwf.names i j d d' hi hj hij)
-  refine ⟨?_, ?_, ?_, ?_, ?_, ?_⟩
+  refine ⟨?_, ?_, ?_, ?_, ?_, ?_, ?_⟩
   · -- files
     intro sf hsf
     unfold sfilesOf at hsf
@@ -208,6 +208,19 @@ theorem wfinput (bo : BOps B) (ds : List (MDecl V)) (bsOf : MDecl V → List B) 
       rw [hwd.bounds.texts] at ht'
       obtain ⟨b, hb, rfl⟩ := List.mem_map.mp ht'
       rw [hwd.bounds.parse b hb]; rfl
+  · -- label names inside one key are pairwise different
+    intro c hc1
+    obtain ⟨i, d, h, hi, hh', hm, hin⟩ := horigin c hc1
+    have hd : d ∈ ds := List.mem_of_getElem? hi
+    have hwd := hwf.decls d hd
+    obtain ⟨ka, hka, p, hp, rfl⟩ := (mem_expContribs d pid st.disk h c).mp hin
+    have hkl := hc.keylen i d h hi hh' ka hka
+    simp only [contribOf]
+    rcases cell_shape d ka.1 p hp with ⟨a1, a2, _⟩ | ⟨t, rfl⟩
+    · rw [mmapKey_labels p (a1 ▸ hwd.wf.lnNodup)]
+      exact sortByKey_nodupKeys _ (zip_nodupKeys _ _ (a1 ▸ hwd.wf.lnNodup))
+    · rw [bucket_labels d hwd.wf ka.1 hkl t]
+      exact sortByKey_nodupKeys _ (bucket_pairs_nodup d hwd.wf ka.1 t)
 
 /-- … whose rendered bucket keys are pairwise different -/
 theorem hk_input (bo : BOps B) (ds : List (MDecl V)) (bsOf : MDecl V → List B) (hwf : WFAllB bo ds bsOf) (pid : Str)
